@@ -19,6 +19,10 @@
 (* operators of Ref.tla / Values.tla; everything about control, scoping,    *)
 (* stacks, restoration after errors and interrupts is defined here,         *)
 (* independently of Ref's recursion, and checked against it (MC_Machine).   *)
+(* User-defined methods get a frame like functions do.  The prelude's own   *)
+(* functions and methods (range, map, filter, ...) are single steps here:   *)
+(* the machine does not look inside the prelude (map / filter run their     *)
+(* closure with Ref's big-step evaluator, output included).                 *)
 EXTENDS Ref
 
 CONSTANTS TickLimit,      \* 0 = none  (env.tick_limit)
@@ -77,6 +81,8 @@ Res(f)            == [f |-> f, call |-> FALSE, nf |-> f, out |-> "", err |-> NoS
 ResOut(f, s)      == [f |-> f, call |-> FALSE, nf |-> f, out |-> s, err |-> NoStop]
 ResCall(f, nf)    == [f |-> f, call |-> TRUE, nf |-> nf, out |-> "", err |-> NoStop]
 ResErr(f, k, l)   == [f |-> f, call |-> FALSE, nf |-> f, out |-> "", err |-> [kind |-> k, line |-> l]]
+\* an error raised inside a prelude step after it printed something (a closure run by map / filter)
+ResErrOut(f, k, l, s) == [f |-> f, call |-> FALSE, nf |-> f, out |-> s, err |-> [kind |-> k, line |-> l]]
 
 RECURSIVE UnwindBreak(_)
 \* eval_break: leave the innermost loop whose body is running, popping the
@@ -103,7 +109,7 @@ UnwindContinue(f) ==
 LookupVar(f, x) ==
   LET i == FindBlk(f.B, x, Len(f.B)) IN
   IF i # 0 THEN [found |-> TRUE, v |-> f.B[i][x]]
-  ELSE IF FunIdx(prog, x) # 0 THEN [found |-> TRUE, v |-> FunV(x)]
+  ELSE IF FunIdx(prog, x) # 0 \/ x \in BuiltinFuns THEN [found |-> TRUE, v |-> FunV(x)]
   ELSE [found |-> FALSE, v |-> UnitV]
 
 RECURSIVE FirstArm(_, _, _)
@@ -112,6 +118,7 @@ FirstArm(arms, v, i) ==
   ELSE IF arms[i].wild \/ arms[i].v = v.n THEN i ELSE FirstArm(arms, v, i + 1)
 
 DummySt == St(<<>>, "", 1)
+PreludeSt == St(<<>>, "", 300)      \* for the prelude steps that call back into closures
 
 (* One step of eval_expr on entry en, which has already been popped from f. *)
 StepExpr(f, en) ==
@@ -170,8 +177,16 @@ StepExpr(f, en) ==
               Res(PushVIf(p.f, u, IF e.k = "list" THEN ListV(p.vs) ELSE TupV(p.vs)))
     [] e.k = "slit" ->
          IF st = "NE" THEN Res(PushItems(PushE(f, "ES", e, u), [i \in 1..Len(e.fs) |-> e.fs[i].e], 1))
-         ELSE LET p == PopN(f, Len(e.fs)) IN
-              Res(PushVIf(p.f, u, StructV(e.n, [i \in 1..Len(e.fs) |-> [n |-> e.fs[i].n, v |-> p.vs[i]]])))
+         ELSE LET p == PopN(f, Len(e.fs))  bad == SlitProblem(prog, e, p.vs) IN
+              IF bad.ek # "" THEN ResErr(f, bad.ek, bad.line)
+              ELSE Res(PushVIf(p.f, u, StructV(e.n, [i \in 1..Len(e.fs) |-> [n |-> e.fs[i].n, v |-> p.vs[i]]])))
+    [] e.k = "dlit" ->
+         \* each pair's value, then its key, onto the work list: the last pair's key runs first
+         IF st = "NE"
+         THEN Res(PushItems(PushE(f, "ES", e, u),
+                            [i \in 1..(2 * Len(e.kvs)) |-> IF i % 2 = 1 THEN e.kvs[(i + 1) \div 2].val ELSE e.kvs[i \div 2].key], 1))
+         ELSE LET p == PopN(f, 2 * Len(e.kvs))  r == DictFold(e, p.vs, 1, <<>>, DummySt) IN
+              IF r.c # "ok" THEN ResErr(f, r.ek, r.line) ELSE Res(PushVIf(p.f, u, r.v))
     [] e.k = "dot" ->
          IF st = "NE" THEN Res(PushE(PushE(f, "ES", e, u), "NE", e.e, TRUE))
          ELSE LET v == TopV(f) IN
@@ -250,6 +265,10 @@ StepExpr(f, en) ==
                          IF Len(g.ps) # Len(args) THEN ResErr(f, "Arity", e.line)
                          ELSE ResCall(f1, PushStmts(Frame(<<>>, Append(g.env, BindParams(g.ps, args, 1, EmptyBlk)),
                                                           u, g.rt, g.line), g.b, Len(g.b), TRUE))
+                    [] g.k = "Fun" /\ FunIdx(prog, g.n) = 0 ->
+                         LET r == CallBuiltin(g.n, args, e.line, DummySt) IN
+                         IF r.c = "big" THEN ResErr(f, "BIG", e.line)
+                         ELSE IF r.c # "ok" THEN ResErr(f, r.ek, r.line) ELSE Res(PushVIf(f1, u, r.v))
                     [] g.k = "Fun" ->
                          LET d == prog.funs[FunIdx(prog, g.n)] IN
                          IF Len(d.ps) # Len(args) THEN ResErr(f, "Arity", e.line)
@@ -259,9 +278,16 @@ StepExpr(f, en) ==
                     [] OTHER -> ResErr(f, "ExpectedFunction", e.line)))
     [] e.k = "mcall" ->
          IF st = "NE" THEN Res(PushE(PushItems(PushE(f, "ES", e, u), e.args, 1), "NE", e.recv, TRUE))
-         ELSE LET p == PopN(f, Len(e.args)) IN
-              LET r == MethodCall(prog, e, TopV(p.f), p.vs, DummySt) IN
-              IF r.c # "ok" THEN ResErr(f, r.ek, e.line) ELSE Res(PushVIf(PopV(p.f), u, r.v))
+         ELSE LET p == PopN(f, Len(e.args))  recv == TopV(p.f)  mi == MethIdx(prog, TypeName(recv), e.m) IN
+              IF mi # 0
+              THEN LET d == prog.meths[mi] IN
+                   IF Len(d.ps) # Len(p.vs) THEN ResErr(f, "Arity", e.line)
+                   ELSE ResCall(PopV(p.f), PushStmts(Frame(<<>>, <<Bind(BindParams(d.ps, p.vs, 1, EmptyBlk), d.this, recv)>>,
+                                                           u, d.rt, d.line), d.b, Len(d.b), TRUE))
+              ELSE LET r == MethodCall(prog, e, recv, p.vs, PreludeSt) IN
+                   IF r.c \in {"big", "fuel"} THEN ResErr(f, "BIG", e.line)
+                   ELSE IF r.c # "ok" THEN ResErrOut(f, r.ek, r.line, r.s.out)
+                   ELSE ResOut(PushVIf(PopV(p.f), u, r.v), r.s.out)
     [] e.k = "show" ->
          IF st = "NE" THEN Res(PushE(PushE(f, "ES", e, u), "NE", e.e, TRUE))
          ELSE ResOut(PushVIf(PopV(f), u, UnitV), Disp(TopV(f)) \o "\n")
@@ -320,7 +346,8 @@ Tick ==
      ELSE LET r == StepExpr(f, en) IN
           IF r.err.kind # ""
           THEN /\ Stopped(r.err.kind, r.err.line)
-               /\ UNCHANGED <<pid, stack, out, intr, result>>
+               /\ out' = out \o r.out
+               /\ UNCHANGED <<pid, stack, intr, result>>
           ELSE /\ stack' = IF r.call THEN Append(SetTop(r.f), r.nf) ELSE SetTop(r.f)
                /\ out' = out \o r.out
                /\ UNCHANGED <<pid, status, stop, intr, result>>
